@@ -1477,6 +1477,8 @@ class tensor:
 
         if np.unique(grps).size != grps.size:
             assert False, "Cannot have overlapping symmetries"
+        if grps.size > 0 and (np.min(grps) < 0 or np.max(grps) >= self.ndims):
+            assert False, "Symmetry groups must name modes of the tensor"
 
         data = self.data.copy()
 
